@@ -8,6 +8,9 @@
 #include <boost/archive/binary_oarchive.hpp>
 #include <boost/mpl/bool.hpp>
 #include <boost/serialization/vector.hpp>
+#include <deque>
+#include <functional>
+#include <map>
 #include <sstream>
 #include <string>
 #include <vector>
@@ -32,6 +35,8 @@ struct MpiWorld {
     std::vector<Slot*> slots;
     std::vector<ProcCtx*> procs;
     std::string violation, violation_msg;
+    std::map<long, std::deque<std::string>> mailbox;
+    static long key(int src, int dst, int tag) { return ((long) src * 4096 + dst) * 65536 + (tag & 0xffff); }
     long eager = 0, synced = 0, reduce_perm = 0, reduce_bracket = 0, rank_skew = 0, reduce_two_found = 0, collectives = 0, early_finalize = 0;
     ~MpiWorld() { for (auto *s : slots) delete s; }
 };
@@ -82,6 +87,13 @@ inline void mpi_wait(Slot *sl, int need_arrivals, bool need_root) {
     if (!Sched::get().wait_until(&slot_cond, &w)) throw SimAbort();
 }
 
+struct RecvWait { int me, source, tag; };
+inline bool recv_cond(void *p) {
+    RecvWait *w = (RecvWait*) p;
+    auto it = mpi_world->mailbox.find(MpiWorld::key(w->source, w->me, w->tag));
+    return it != mpi_world->mailbox.end() && !it->second.empty();
+}
+
 template<class T> inline std::string mpi_pack(const T &v) {
     std::ostringstream os(std::ios::binary);
     { boost::archive::binary_oarchive oa(os, boost::archive::no_header); oa << v; }
@@ -102,6 +114,23 @@ namespace threading { enum level { single = 0, funneled = 1, serialized = 2, mul
 template<class Op, class T> struct is_commutative : mpl::false_ {};
 template<class T> struct is_mpi_datatype : mpl::false_ {};
 template<class Op, class T> struct is_mpi_op : mpl::false_ {};
+
+// boost/mpi/operations.hpp
+template<class T> struct maximum { const T& operator()(const T &a, const T &b) const { return a < b ? b : a; } };
+template<class T> struct minimum { const T& operator()(const T &a, const T &b) const { return a < b ? a : b; } };
+template<class T> struct bitwise_and { T operator()(const T &a, const T &b) const { return a & b; } };
+template<class T> struct bitwise_or { T operator()(const T &a, const T &b) const { return a | b; } };
+template<class T> struct logical_xor { T operator()(const T &a, const T &b) const { return (a || b) && !(a && b); } };
+template<class T> struct is_commutative<maximum<T>, T> : mpl::true_ {};
+template<class T> struct is_commutative<minimum<T>, T> : mpl::true_ {};
+template<class T> struct is_commutative<std::plus<T>, T> : mpl::true_ {};
+template<class T> struct is_commutative<std::multiplies<T>, T> : mpl::true_ {};
+template<class T> struct is_commutative<std::logical_and<T>, T> : mpl::true_ {};
+template<class T> struct is_commutative<std::logical_or<T>, T> : mpl::true_ {};
+template<class T> struct is_commutative<bitwise_and<T>, T> : mpl::true_ {};
+template<class T> struct is_commutative<bitwise_or<T>, T> : mpl::true_ {};
+const int any_source = -1;
+const int any_tag = -1;
 
 class environment {
 public:
@@ -126,6 +155,21 @@ public:
     int size() const { return sim::tl_proc ? sim::tl_proc->nprocs : 1; }
     void barrier() const { sim::Slot *sl = sim::mpi_enter(sim::COLL_BARRIER, 0); { sim::IgnoreGuard ig; sl->arrivals++; } sim::mpi_wait(sl, size(), false); }
     operator bool() const { return true; }
+    // point-to-point (reliable, in order per (source, destination, tag)); send is eager
+    template<class T> void send(int dest, int tag, const T &value) const {
+        sim::Sched::get().yield();
+        std::string bytes = sim::mpi_pack(value);
+        sim::IgnoreGuard ig;
+        sim::mpi_world->mailbox[sim::MpiWorld::key(rank(), dest, tag)].push_back(bytes);
+    }
+    template<class T> void recv(int source, int tag, T &value) const {
+        sim::Sched::get().yield();
+        sim::RecvWait w { rank(), source, tag };
+        if (!sim::Sched::get().wait_until(&sim::recv_cond, &w)) throw sim::SimAbort();
+        std::string bytes;
+        { sim::IgnoreGuard ig; std::deque<std::string> &q = sim::mpi_world->mailbox[sim::MpiWorld::key(source, rank(), tag)]; bytes = q.front(); q.pop_front(); }
+        sim::mpi_unpack(bytes, value);
+    }
 };
 
 class timer {
@@ -187,7 +231,7 @@ namespace detail_sim {
 template<class T> auto exists_flag(const T &v, int) -> decltype(v.exists, int()) { return v.exists ? 1 : 0; }
 template<class T> int exists_flag(const T&, long) { return -1; }
 // combine vals[lo, hi) in an order-preserving, seeded bracketing
-template<class T, class Op> T bracket(std::vector<T> &vals, size_t lo, size_t hi, Op &op) {
+template<class T, class Op> T bracket(std::deque<T> &vals, size_t lo, size_t hi, Op &op) {
     if (hi - lo == 1) return vals[lo];
     size_t cut = lo + 1;
     { sim::IgnoreGuard ig; uint32_t c = sim::Sched::get().chooser()->choose((uint32_t) (hi - lo - 1), sim::T_REDUCE, 500); cut = hi - 1 - c; if (c) sim::mpi_world->reduce_bracket++; }
@@ -204,7 +248,7 @@ template<class T, class Op> void reduce(const communicator &comm, const T &in_va
     { sim::IgnoreGuard ig; sl->data[me] = bytes; sl->arrived[me] = 1; sl->arrivals++; if (me == root) sl->root_arrived = true; sync = sl->sync; }
     if (me != root) { if (sync) sim::mpi_wait(sl, P, false); return; }
     sim::mpi_wait(sl, P, false);
-    std::vector<T> vals(P);
+    std::deque<T> vals(P);      // deque: no vector<bool> specialisation
     for (int r = 0; r < P; r++) { std::string b; { sim::IgnoreGuard ig; b = sl->data[r]; } sim::mpi_unpack(b, vals[r]); }
     if (is_commutative<Op, T>::value && P > 1) {
         // a commutative operator may be applied to the contributions in any order
@@ -234,8 +278,8 @@ template<class T> void gather(const communicator &comm, const T &in_value, std::
     { sim::IgnoreGuard ig; sl->data[me] = bytes; sl->arrivals++; sync = sl->sync; }
     if (me != root) { if (sync) sim::mpi_wait(sl, P, false); return; }
     sim::mpi_wait(sl, P, false);
-    out_values.resize(P);
-    for (int r = 0; r < P; r++) { std::string b; { sim::IgnoreGuard ig; b = sl->data[r]; } sim::mpi_unpack(b, out_values[r]); }
+    out_values.clear();
+    for (int r = 0; r < P; r++) { std::string b; { sim::IgnoreGuard ig; b = sl->data[r]; } T v; sim::mpi_unpack(b, v); out_values.push_back(v); }
 }
 template<class T> void all_gather(const communicator &comm, const T &in_value, std::vector<T> &out_values) {
     gather(comm, in_value, out_values, 0);
